@@ -82,7 +82,20 @@ def abstract(hs, alpn):
             "rsaHashes": list(v.rsaSigHashes), "ecdsaHashes": list(v.ecdsaSigHashes), "rsaSchemes": list(v.rsaSchemes),
             "etm": bool(v.useEncryptThenMAC), "ems": bool(v.useExtendedMasterSecret), "reqEms": bool(v.requireExtendedMasterSecret),
             "rsl": v.record_size_limit or 0, "alpn": [bytes(a).decode() for a in (alpn or [])],
-            "pskModes": list(v.psk_modes)}
+            "pskModes": list(v.psk_modes),
+            # finite-field DHE is predictable where nothing restricts its group or the key sizes
+            "dhPlain": bool(list(v.dhGroups) == list(_defaults().dhGroups) and v.minKeySize == _defaults().minKeySize
+                            and v.maxKeySize == _defaults().maxKeySize)}
+
+
+_DEF = []
+
+
+def _defaults():
+    if not _DEF:
+        from tlslite.api import HandshakeSettings
+        _DEF.append(HandshakeSettings().validate())
+    return _DEF[0]
 
 
 def view(conn, role):
